@@ -341,11 +341,11 @@ def check_C09(ctx):
     ctx.model_must_hold(r, what='(root / perfect power contracts = brute force definitions)')
     b = ctx.build('default')
     ctx.validate(ctx.run_driver(b, 'alias', shards=8, extra='funs=mpz_sqrt:mpz_sqrtrem:mpz_root:mpz_nthroot:mpz_rootrem:mpz_perfect_square_p:mpz_perfect_power_p', tier='thorough', timeout=900))
-    trace_drivers(ctx, [('c09_mpz', 16, 1500), ('c09_mpn', 8, 900)], pure_drivers=['c09_mpn'])
+    trace_drivers(ctx, [('c09_mpz', 16, 1500), ('c09_mpn', 8, 900), ('k5_root', 8, 900)], pure_drivers=['c09_mpn', 'k5_root'])      # k5_root: mpn_rootrem / mpn_rootrem_basecase called directly (roots B^k-1, powers of two, index above the bit length)
     return ctx.finish('model_checking',
         rule='R2: RootContract checks the root and perfect-power predicates of the specification against brute force for every |u|<=M. R3/R1: sqrt/sqrtrem/root/nthroot/rootrem/'
              'perfect_square_p/perfect_power_p on u = k^n, k^n-1, k^n+1 and random u of the same size, k of 0..130 limbs (all-ones, runs, random), n in 1..200 and around the bit length, '
-             'negative u with odd n, aliasing; mpn_sqrtrem (also NULL remainder) and mpn_perfect_square_p on squares +-1 for every limb count. distinct = distinct calls; non-trivial = two limbs or more',
+             'negative u with odd n, aliasing; mpn_rootrem (with and without remainder) and mpn_rootrem_basecase called directly on exact powers +-1 with roots B^k-1 / powers of two / random for 14 indices; mpn_sqrtrem (also NULL remainder) and mpn_perfect_square_p on squares +-1 for every limb count. distinct = distinct calls; non-trivial = two limbs or more',
         explanation='contract model + trace validation with exact root predicates')
 
 
@@ -464,7 +464,8 @@ def check_C16(ctx):
     ctx.validate(paths)
     funs = 'mpz_fac_ui:mpz_2fac_ui:mpz_mfac_uiui:mpz_primorial_ui:mpz_bin_ui:mpz_bin_uiui:mpz_fib_ui:mpz_fib2_ui:mpz_lucnum_ui:mpz_lucnum2_ui:mpz_remove'
     ctx.validate(ctx.run_driver(b, 'alias', shards=8, extra='funs=' + funs, tier='thorough', timeout=900))
-    trace_drivers(ctx, [('c16_comb', 16, 1500), ('c16_bin', 16, 1500), ('c16_prime', 16, 1500)], pure_drivers=['c16_comb', 'c16_bin'])
+    trace_drivers(ctx, [('c16_comb', 16, 1500), ('c16_bin', 16, 1500), ('c16_prime', 16, 1500), ('k5_comb', 8, 900), ('k5_prime', 8, 900)], pure_drivers=['c16_comb', 'c16_bin', 'k5_comb'])
+    # k5_*: the internal helpers called directly: mpn_fib2_ui, mpz_oddfac_1 (both flags), mpz_prodlimbs, gmp_primesieve (whole bit array), gmp_nextprime (sequence), mpz_trial_division
     return ctx.finish('model_checking',
         rule='R2: BinDispatch = the selection of mpz_bin_uiui with the table limits of the tree: every basecase result, odd factorial and odd central binomial table entry fits a limb and each '
              'limit is tight; the (n,k) adjacent to region boundaries are printed and replayed. R3/R1: fac/2fac/mfac/primorial/fib/fib2/lucnum/lucnum2 for every n up to 420 (thorough 1400) and '
@@ -548,7 +549,7 @@ def check_C19(ctx):
 CPU_VARIANTS = ['netburst', 'k8', 'k10', 'k102', 'bulldozer', 'piledriver', 'bobcat', 'core2', 'penryn', 'nehalem', 'westmere', 'sandybridge',
                 'ivybridge', 'haswell', 'haswellavx', 'broadwell', 'skylake', 'skylakeavx', 'atom']
 OPTION_VARIANTS = ['none', 'fat', 'assert', 'alloca-debug', 'alloca-reentrant']
-BATTERY = [('c01_pieces', 1), ('k1_mullow', 1), ('k1_mulmid', 1), ('k1_redc', 1), ('k1_mulmod', 1), ('k2_div1', 1), ('k2_sbdc', 1), ('k2_bdiv', 1), ('c14_kern', 2), ('c03_mpn', 2), ('c01_mul1', 1), ('c02_tdiv', 2), ('c02_div1', 1), ('c10_mpn', 1), ('c09_mpn', 1), ('c07_mpn', 1), ('c06_mpn', 1),
+BATTERY = [('c01_pieces', 1), ('k1_mullow', 1), ('k1_mulmid', 1), ('k1_redc', 1), ('k1_mulmod', 1), ('k2_div1', 1), ('k2_sbdc', 1), ('k2_bdiv', 1), ('c14_kern', 2), ('k5_root', 1), ('k5_comb', 1), ('k5_prime', 1), ('c03_mpn', 2), ('c01_mul1', 1), ('c02_tdiv', 2), ('c02_div1', 1), ('c10_mpn', 1), ('c09_mpn', 1), ('c07_mpn', 1), ('c06_mpn', 1),
            ('c01_mpz', 1), ('c02_mpz', 2), ('c07_mpz', 2), ('c08_powm', 2), ('hist', 2)]
 
 
